@@ -8,6 +8,8 @@
 package mgmt
 
 import (
+	"math"
+
 	"github.com/named-data/ndnd/fw/core"
 	"github.com/named-data/ndnd/fw/dispatch"
 	"github.com/named-data/ndnd/fw/fw"
@@ -84,6 +86,14 @@ func (c *ContentStoreModule) config(interest *spec.Interest, pitToken []byte, in
 	if (params.Flags == nil && params.Mask != nil) || (params.Flags != nil && params.Mask == nil) {
 		core.LogWarn(c, "Flags and Mask fields must either both be present or both be not present")
 		response = makeControlResponse(409, "ControlParameters are incorrect", nil)
+		c.manager.sendResponse(response, interest, pitToken, inFace)
+		return
+	}
+
+	if params.Capacity != nil && *params.Capacity > math.MaxInt {
+		// The capacity is kept as an int: a larger value would turn negative
+		core.LogWarn(c, "Capacity=", *params.Capacity, " is out of range")
+		response = makeControlResponse(400, "ControlParameters is incorrect", nil)
 		c.manager.sendResponse(response, interest, pitToken, inFace)
 		return
 	}
